@@ -158,14 +158,18 @@ func (rg *rootGeneratorPipeline) worker(ctx context.Context, wg *sync.WaitGroup,
 			}
 
 			var (
-				sc      = bufio.NewScanner(strings.NewReader(block))
 				root    *Node
 				nodes   *stack
 				counter = newCounter()
 			)
-			for sc.Scan() {
+			// The block is made of the splitter's lines, each terminated by "\n". They must not
+			// go through a line scanner a second time: that would strip another trailing "\r"
+			// (a row "- a\r" would name its node "a" here and "a\r" without the massive option).
+			for rest := block; len(rest) > 0; {
+				var line string
+				line, rest, _ = strings.Cut(rest, "\n")
 				verifPoint("gen.line")
-				currentNode, err := rg.nodeGenerator.generate(sc.Text(), counter.next())
+				currentNode, err := rg.nodeGenerator.generate(line, counter.next())
 				if err != nil {
 					verifPoint("gen.err")
 					sendErr(ctx, errc, err)
@@ -190,14 +194,9 @@ func (rg *rootGeneratorPipeline) worker(ctx context.Context, wg *sync.WaitGroup,
 
 				if !nodes.dfs(currentNode) {
 					verifPoint("gen.err")
-					sendErr(ctx, errc, &inputFormatError{row: sc.Text()})
+					sendErr(ctx, errc, &inputFormatError{row: line})
 					return
 				}
-			}
-			if err := sc.Err(); err != nil {
-				verifPoint("gen.err")
-				sendErr(ctx, errc, err)
-				return
 			}
 			if root == nil {
 				// block without any item (e.g. blank lines before the first root)
